@@ -180,6 +180,27 @@ def run(tier, seed):
                         viol.append({"world": "links-%s-%s-%s" % (mode, tkind, prior), "why": "a create event is reported for a symlink entry although %s" % ("the path existed before" if before_l else "nothing appears in the destination")})
                     if kind == "skip" and before_l != after_l:
                         viol.append({"world": "links-%s-%s-%s" % (mode, tkind, prior), "why": "a skip event is reported for a symlink entry although the destination entry %s" % ("disappeared" if before_l else "appeared")})
+                    # the same command again (C03): what it reports for the entry now, vs the model on the state the first run left
+                    dl = base + "/dst/l"
+                    if not os.path.lexists(dl):
+                        d1 = "a"
+                    elif os.path.islink(dl):
+                        d1 = "l1" if os.readlink(dl) == target else "l2"
+                    elif os.path.isdir(dl):
+                        d1 = "d"
+                    else:
+                        d1 = "f7" if open(dl, "rb").read() == b"seven77" else "f3"
+                    rr2 = world.run_sy([base + "/src", base + "/dst", "--links", mode, "--json", "-j1"], sc)
+                    kind2 = "none"
+                    for l in rr2["out"].split("\n"):
+                        if l.startswith("{"):
+                            ev = json.loads(l)
+                            if ev.get("path", "").endswith("/dst/l") and ev.get("type") in ("create", "update", "skip", "error"):
+                                kind2 = ev["type"]
+                    le_cases.append("LE %s %s 1:%s" % (mode, d1, cw))
+                    le_obs.append(kind2)
+                    if kind2 in ("create", "update"):
+                        viol.append({"world": "links-%s-%s-%s" % (mode, tkind, prior), "why": "re-running the same command reports the symlink entry as %sd again" % kind2})
                     shutil.rmtree(base, ignore_errors=True)
         for c_, o_, m_ in zip(le_cases, le_obs, vlib.run_model(le_cases)):
             if o_ != m_:
@@ -208,8 +229,8 @@ def run(tier, seed):
         if o != m and ew.norm_events(o) != ew.norm_events(m):          # with several workers the events come in completion order
             diffs.append({"case": case, "impl": o, "model": m})
     diffs += link_diffs
-    res.cov["link_event_cases"] = 36
-    res.cov["evaluations"] = len(cases) * 2 + 36
+    res.cov["link_event_cases"] = 72
+    res.cov["evaluations"] = len(cases) * 2 + 72
     res.cov["distinct_nontrivial"] = len(nontriv)
     res.cov["model_impl_disagreements"] = len(diffs)
     res.cov["rule"] = ("C01/C06 worlds, one third with natural faults (type conflicts), all flag sets incl. --delete and --dry-run, run with --json (every stdout line parsed; events, error objects, summary) "
